@@ -1661,3 +1661,38 @@ def op_not(I, args, callee):
     if type(v) is Sym:
         return Sym(z3.Not(v.e)) if z3.is_bool(v.e) else Sym(~v.e)
     raise Unmodelled('Not::not on %r' % (v,))
+
+
+@model('String::from_utf16', 'String::from_utf16_lossy')
+def string_from_utf16(I, args, callee):
+    """decode UTF-16 code units (u16, possibly symbolic); unpaired surrogates are an error"""
+    units = items_of(args[0])
+    out = []
+    i = 0
+    n = len(units)
+    while i < n:
+        u = units[i]
+        if not I.decide(in_range(I, u, 0xD800, 0xDFFF)):
+            c = u if type(u) is not Sym else Sym(z3.ZeroExt(16, u.e))
+            out.extend(encode_utf8(I, c))
+            i += 1
+            continue
+        # surrogate: must be a high one followed by a low one
+        if not I.decide(in_range(I, u, 0xD800, 0xDBFF)) or i + 1 >= n or not I.decide(in_range(I, units[i + 1], 0xDC00, 0xDFFF)):
+            if 'lossy' in callee:
+                out.extend([0xEF, 0xBF, 0xBD])
+                i += 1
+                continue
+            return err(Opaque('FromUtf16Error'))
+        lo = units[i + 1]
+        if type(u) is not Sym and type(lo) is not Sym:
+            c = 0x10000 + ((u - 0xD800) << 10) + (lo - 0xDC00)
+        else:
+            hu = z3.ZeroExt(16, I.to_bv(u, 16))
+            lu = z3.ZeroExt(16, I.to_bv(lo, 16))
+            c = Sym(z3.simplify(z3.BitVecVal(0x10000, 32) + ((hu - z3.BitVecVal(0xD800, 32)) << 10) + (lu - z3.BitVecVal(0xDC00, 32))))
+        out.extend(encode_utf8(I, c))
+        i += 2
+    if 'lossy' in callee:
+        return StringV(out)
+    return ok(StringV(out))
